@@ -571,6 +571,16 @@ fn gen_lead(rng: &mut Rng, real: bool) -> C {
     };
     if real {
         C::new(m * rng.sign(), 0.0)
+    } else if (m.to_bits() >> 3) % 4 == 0 {
+        // round 11: a quarter of the complex leading coefficients lie exactly on an axis - purely imaginary
+        // (real part exactly 0: whatever looks at one component only sees nothing) or purely real
+        // (selected from the bits of m so that the other draws stay as they were)
+        match (m.to_bits() >> 5) % 4 {
+            0 => C::new(0.0, m),
+            1 => C::new(0.0, -m),
+            2 => C::new(-m, 0.0),
+            _ => C::new(m, 0.0),
+        }
     } else {
         C::from_polar(m, rng.r(0.0, 2.0 * std::f64::consts::PI))
     }
@@ -1033,7 +1043,7 @@ pub fn stages(ctx: &Ctx) -> Vec<Stage> {
         let (fam, n, t, pt) = oc[i as usize];
         run_ortho(rep, fam, n, t, pt);
     }));
-    st.push(Stage::new("random", tier.pick(60_000, 600_000), move |i, rep| {
+    st.push(Stage::new("random", tier.pick(60_000, 24_000_000), move |i, rep| {
         let mut rng = Rng::for_case(seed, "c14-random", i);
         let real = i % 2 == 0;
         let deg = 1 + (i / 2 % 10) as usize;
